@@ -26,7 +26,7 @@ rundemo() {
   [ -z "$cmd" ] && cmd="go test -vet=off -count=1 ./..."
   ( cd "$WT" && timeout 600 bash -c "$cmd" ) > "$OUT/demo-$1.log" 2>&1
   rc=$?
-  for f in $DEMOFILES; do find "$WT" -name "$f" -not -path "*/_out/*" -delete; done
+  for f in $DEMOFILES; do find "$WT" -name "$f" -not -path "*/_out/*" -not -path "*/_out2/*" -delete; done
   return $rc
 }
 rundemo clean; DEMO_CLEAN=$?
